@@ -410,6 +410,9 @@ def build_case(s, heavy, R):
     ops.append("GET %s/other/o.ctb" % R); tags.append(("x",))
     ops.append("FWD %s/other/o.ctb 4 8 - 0 0061 - -" % R); tags.append(("O",))
     ops.append("GET %s/other/plain.ctb,%s" % (R, MK)); tags.append(("x",))
+    # a list whose NAME the list under test is a proper prefix of, with a file that overrides the rule the answer is read
+    # from: loaded before, it must not answer for the shorter name (seeded change C20-F: the cache compared a prefix)
+    ops.append("GET %s,%s/other/ext.ctb" % (glist, R)); tags.append(("x",))
     if heavy:
         ops.append("GET %s/tables/en-us-g2.ctb" % common.REPO); tags.append(("x",))
     round_("after-loads")
@@ -463,6 +466,7 @@ def _run(v, rng, exe, R, tablesdir, tier):
     os.makedirs(R + "/other/sub")
     open(R + "/other/sub/" + MK, "w").write("sign a 8\n")
     open(R + "/other/plain.ctb", "w").write("sign c 14\n")
+    open(R + "/other/ext.ctb", "w").write("always a 78\n")
     heavy_ids = set(s.id for s in rng.sample(scns, 6 if tier == "quick" else 60))
     cases = [build_case(s, s.id in heavy_ids, R) for s in scns]
     order = list(cases)
